@@ -1,72 +1,257 @@
 """C19 — batches partition the work; option grids enumerate every combination once.
 
-Model: lean/HydroVerif/Model/C19.lean; theorems: lean/HydroVerif/Props/C19.lean.
-Correspondence: `get_batch`, `SiteBatch.search`, `OptionManager.from_cartesian_product / find /
-to_dict -> json -> from_dict / ==` are run on the real code and on the model driver, request by request.
-Oracle (failing-input search, on the real code only): partition / size / search / product / find /
-round-trip facts stated independently of the model.
-Cases: all (n, k, i) up to a bound incl. rejected calls, random large n; option dictionaries of 1..4
-options x 1..5 values (ints, identifiers, bare scalars), context dicts, renamed dict keys.
+Model: lean/HydroVerif/Model/C19.lean; theorems: lean/HydroVerif/Props/C19.lean; lemmas: lean/HydroVerif/Lemmas/C19.lean.
+Correspondence (real code vs model driver, request by request):
+  `get_batch` (three guards + numpy's array_split arithmetic: `split n k` rows compare np.array_split itself),
+  `SiteBatch(ids, nbatch)` / `sb[i]` / `sb.search(id)` on the site ids themselves (integer or string ids, repeated ids,
+  nbatch <= 0 and > nsites), `OptionManager.from_cartesian_product` (lists, tuples, ranges, generators, iterators, bare
+  scalars incl. floats, empty and non-iterable values) / `get_task` / `task[key]` / `find` and `search("^v$")` with zero
+  or more criteria / `to_dict -> json -> from_dict` / `==` / `save` / `from_file`, and HISTORIES: one manager object, the
+  module-level key names, ONE exported dictionary (read any number of times, before and after json) and json files,
+  driven through random operation lists that include rejected operations; the model side is `run` of Model/C19.lean on
+  the same list.  Call sequences of get_batch / SiteBatch objects repeat rejected configurations (the function has no
+  memory, objects do not interfere).
+Oracle (failing-input search, on the real code only, independent of the model): partition / size / search / product /
+  get_task / find / round-trip facts, stated on the inputs of the property's quantifier only: every reading of an
+  exported dictionary (dictionary leg, json leg, the same dictionary again, a json file) gives back the manager it was
+  exported from; list objects handed to the manager twice still hold their values.
+Cases: all (n, k, i) up to a bound incl. rejected calls, random large n, call sequences with repeated rejected calls
+  and interleaved SiteBatch objects; option dictionaries of 1..4 options x 1..5 values (ints, identifiers, bare
+  scalars incl. floats, any container), context dicts (falsy and empty values), renamed dictionary keys; operation
+  lists of 4..14 steps.  Beyond the quantifier (correspondence only, no oracle): repeated option values, values with
+  `.`/`[`/`]`, key names that collide at the top level, non-iterable options, unknown keys.  Where neither the property
+  nor a hypothesis of a theorem says anything (nbatch < 1 or an absent site on a SiteBatch, an option without values, key
+  names that collide inside a task dictionary, `==` between managers that differ, answers after a rejected grid) a
+  difference from the model is counted in the evidence, not reported.
 A case is non-trivial when the call is accepted and returns a non-empty result.
 """
+import copy
 import itertools
 import json
+import tempfile
+from pathlib import Path
 
 from . import common as C
 
 PID = "C19"
 
+TASK_LEVEL_COLLISIONS = {("c", "c", "o"), ("context", "taskid", "options"), ("taskid", "options", "mo")}
+IDENT = ["a", "ab", "abc", "b_1", "A", "zz9", "model", "mod", "el", "Model", "AB", "d", "D", "x1", "q", "solo", "x_y",
+         "upper", "murray", "flow"]
 
-def gen_opts(rng):
-    if rng.random() < 0.2:
+
+def tok(v):
+    """typed token of a python value (bool before int: a bool is an int)"""
+    if isinstance(v, bool) or v is None:
+        return "o" + repr(v)
+    if isinstance(v, int):
+        return f"i{v}"
+    if isinstance(v, float):
+        return "f" + repr(v)
+    if isinstance(v, str):
+        return "s" + v
+    return "o" + repr(v).replace(" ", "")
+
+
+def plain(v):
+    return not any(c in str(v) for c in ".[]")
+
+
+def quant(v):
+    """a value of the property's quantifier: an integer, or an identifier-like string (an ASCII letter, no . [ ])"""
+    if isinstance(v, bool):
+        return False
+    if isinstance(v, int):
+        return True
+    return isinstance(v, str) and plain(v) and any(c.isascii() and c.isalpha() for c in v)
+
+
+# ---------------------------------------------------------------- option arguments
+# an argument is (kind, values): kind in bare / list / tuple / range / gen / iter / none
+def realize(arg):
+    kind, vals = arg
+    if kind == "bare":
+        return vals[0]
+    if kind == "list":
+        return list(vals)
+    if kind == "tuple":
+        return tuple(vals)
+    if kind == "range":
+        return range(vals[0], vals[-1] + 1) if vals else range(0)
+    if kind == "gen":
+        return (v for v in list(vals))
+    if kind == "iter":
+        return iter(list(vals))
+    if kind == "none":
+        return None
+    raise AssertionError(kind)
+
+
+def arg_row(arg):
+    kind, vals = arg
+    if kind == "bare":
+        return "!" + tok(vals[0])
+    if kind == "none":
+        return "?"
+    return ",".join(tok(v) for v in vals) if vals else "-"
+
+
+def arg_values(arg):
+    return list(arg[1])
+
+
+def enc_args(args):
+    """args: dict key -> arg"""
+    return C.slist(args.keys()), "[" + ";".join(arg_row(a) for a in args.values()) + "]"
+
+
+def enc_dict(d):
+    return C.slist(d.keys()), "[" + ",".join(tok(v) for v in d.values()) + "]"
+
+
+def fmt_dict(d):
+    return "[" + ",".join(f"{k}={tok(v)}" for k, v in d.items()) + "]"
+
+
+def gen_values(rng, nv=None):
+    """1..5 distinct values of one option: ints, identifier-like strings, or both"""
+    nv = nv or rng.randint(1, 5)
+    kind = rng.choice(["int", "str", "mixed", "intlike"])
+    if kind == "int":
+        return rng.sample(range(-3, 40), nv)
+    if kind == "str":
+        return rng.sample(IDENT, nv)
+    if kind == "mixed":
+        return rng.sample([1, 10, 11, "x1", "one", 100, "a", 0, "all", "auto", -1, "n_1"], nv)
+    # strings that begin like numbers of the same option (anchoring of find): 1 / 10 / 100 / 1x
+    return rng.sample([1, 10, 100, 11, "1x", "x1", "x10", 0, "0x"], nv)
+
+
+def gen_args(rng, containers=True, nopt=None):
+    """an option dictionary inside the property's quantifier: 1..4 options, 1..5 values each, any container, bare scalars"""
+    if rng.random() < 0.15:
         # values that collide when combinations are labelled by joining their string forms:
         # (a, b_c) and (a_b, c) both read "a_b_c"; likewise with "-", "" and digits
-        sep = rng.choice(["_", "-", "", "_"])
-        a, b, c = rng.sample(["upper", "murray", "flow", "x", "q1", "7", "12", "ab"], 3)
+        sep = rng.choice(["_", "", "_"])
+        a, b, c = rng.sample(["upper", "murray", "flow", "x", "q1", "ab", "k7"], 3)
         k1, k2 = rng.sample(["region", "variable", "alpha", "k"], 2)
-        opts = {k1: [a, a + sep + b], k2: [b + sep + c, c]}
+        args = {k1: ("list", [a, a + sep + b]), k2: ("list", [b + sep + c, c])}
         if rng.random() < 0.5:
-            opts[rng.choice(["month", "site_id"])] = rng.sample(range(1, 13), rng.randint(1, 3))
+            args[rng.choice(["month", "site_id"])] = ("list", rng.sample(range(1, 13), rng.randint(1, 3)))
         if rng.random() < 0.3:
             # the same collision with integers: (1, 23) vs (12, 3)
-            opts = {k1: [1, 12], k2: [23, 3]}
-        return opts
-    nopt = rng.randint(1, 4)
+            args = {k1: ("list", [1, 12]), k2: ("list", [23, 3])}
+        return args
+    nopt = nopt or rng.randint(1, 4)
     keys = rng.sample(["alpha", "beta", "month", "site_id", "x1", "k"], nopt)
-    opts = {}
+    args = {}
     for k in keys:
-        nv = rng.randint(1, 5)
-        kind = rng.choice(["int", "str", "mixed", "bare_int", "bare_str"])
-        if kind == "int":
-            vals = rng.sample(range(-3, 40), nv)
-        elif kind == "str":
-            vals = rng.sample(["a", "ab", "abc", "b_1", "A", "zz9", "model", "mod", "el", "Model", "AB", "d", "D"], nv)
-        elif kind == "mixed":
-            vals = rng.sample([1, 10, 11, "1x", "x1", "one", 100, "a", 0], nv)
-        elif kind == "bare_int":
-            vals = rng.randint(0, 12)
-        else:
-            vals = rng.choice(["solo", "a", "x_y"])
-        opts[k] = vals
-    return opts
+        r = rng.random()
+        if r < 0.25:
+            v = rng.choice([rng.randint(0, 12), rng.choice(["solo", "a", "x_y"]), rng.randint(-5, -1),
+                            rng.choice([0.5, 2.0, -1.25, 0.001, 1e-05, 100.0])])
+            args[k] = ("bare", [v])
+            continue
+        vals = gen_values(rng)
+        kind = "list"
+        if containers and rng.random() < 0.4:
+            kind = rng.choice(["tuple", "gen", "iter", "range"])
+            if kind == "range":
+                lo = rng.randint(-2, 12)
+                vals = list(range(lo, lo + rng.randint(1, 5)))
+        args[k] = (kind, vals)
+    return args
 
 
-def as_list(v):
-    return [v] if isinstance(v, (str, int, float)) else list(v)
+def typed(x):
+    """type-sensitive picture of tasks / options / context (python `==` identifies 1, 1.0 and True)"""
+    if isinstance(x, dict):
+        return {k: typed(v) for k, v in x.items()}
+    if isinstance(x, (list, tuple)):
+        return [type(x).__name__] + [typed(v) for v in x]
+    return tok(x)
+
+
+def snapshot(opm):
+    return {"name": opm.name, "context": typed(opm.context), "options": typed(opm.options), "tasks": typed(opm.tasks)}
+
+
+def same_as(m2, snap):
+    """snapshot(m2) == snap, without walking a task list of another length"""
+    try:
+        if len(m2.tasks) + 1 != len(snap["tasks"]):
+            return False
+    except Exception:  # noqa
+        return False
+    return snapshot(m2) == snap
+
+
+def well_kinded(m):
+    """fields of the kinds the model's Manager holds (see `fromDict` in Model/C19.lean)"""
+    try:
+        if not isinstance(m.context, dict) or any(isinstance(v, (list, dict)) and len(v) > 0 for v in m.context.values()):
+            return False
+        if not isinstance(m.options, dict) or any(not isinstance(v, list) for v in m.options.values()):
+            return False
+        if not isinstance(m.tasks, list) or any(not isinstance(t, dict) for t in m.tasks):
+            return False
+        return not any(isinstance(v, (list, dict)) for t in m.tasks for v in t.values())
+    except Exception:  # noqa
+        return False
 
 
 def body(ctx):
     from hydrodiy.io import hyruns
+    import numpy as np
     rng = ctx.rng
     lean = ctx.lean
-    reqs, impls, cases = [], [], []
+    reqs, impls, cases, strict = [], [], [], []
 
-    def add(req, impl, case):
+    def enough():
+        """plenty of failing inputs already: a broken tree need not be walked to the end (objects may have grown without bound)"""
+        return sum(ctx.finding_counts.values()) >= 60
+
+    def add(req, impl, case, exact=False):
         reqs.append(req)
         impls.append(impl)
         cases.append(case)
+        strict.append(exact)
 
-    # ---------------- get_batch / search
+    def call_batch(n, k, i):
+        try:
+            r = hyruns.get_batch(n, k, i)
+            return True, r, "ok"
+        except ValueError as e:
+            msg = str(e)
+            return False, None, "err " + ("nelemLt1" if "nelements>=1" in msg else "nelemLtNbatch" if ">= nbatch" in msg
+                                          else "ibatchRange" if "ibatch" in msg else "other:" + msg)
+        except Exception as e:  # noqa
+            return False, None, f"err other:{type(e).__name__}"
+
+    def check_batch(n, k, i, partitions=None, how="get_batch"):
+        ok, r, impl = call_batch(n, k, i)
+        valid = 1 <= k <= n and 0 <= i < k
+        if ok:
+            r = [int(x) for x in r]
+            if not valid:
+                ctx.finding("get_batch/accepts_invalid", "a call outside 1<=nbatch<=nelements, 0<=ibatch<nbatch was accepted",
+                            {"n": n, "k": k, "i": i, "how": how})
+            elif r != list(range(r[0], r[0] + len(r))) if r else False:
+                ctx.finding("get_batch/not_contiguous", "batch is not a contiguous increasing range", {"n": n, "k": k, "i": i, "batch": r[:50]})
+            if valid:
+                q, rem = divmod(n, k)
+                want = (i * q + min(i, rem), q + (1 if i < rem else 0))
+                if (r[0] if r else None, len(r)) != want:
+                    ctx.finding("get_batch/not_partition", "a batch is not the i-th of the contiguous, ordered, balanced split "
+                                "(the batches of one (nelements, nbatch) must be disjoint and cover every element)",
+                                {"n": n, "k": k, "i": i, "start": r[0] if r else None, "len": len(r), "expected": want, "how": how})
+            if partitions is not None:
+                partitions.setdefault((n, k), {})[i] = (r[0] if r else None, len(r))
+        elif valid:
+            ctx.finding("get_batch/rejects_valid", "a valid call was rejected", {"n": n, "k": k, "i": i, "reply": impl, "how": how})
+        return ok, r, impl
+
+    # ---------------- get_batch, every (n, k, i) to a bound
     nmax = ctx.scale(40, 60)
     triples = []
     for n in range(-1, nmax + 1):
@@ -80,42 +265,13 @@ def body(ctx):
         triples.append((n, k, i))
     partitions = {}
     for (n, k, i) in triples:
-        try:
-            if k == 0 and n >= 1 and n >= k:
-                # numpy raises on 0 sections only after the guards; guard order is what we compare
-                pass
-            r = hyruns.get_batch(n, k, i)
-            impl = "ok " + C.ilist(r)
-            ok = True
-        except ValueError as e:
-            msg = str(e)
-            impl = "err " + ("nelemLt1" if "nelements>=1" in msg else "nelemLtNbatch" if ">= nbatch" in msg
-                             else "ibatchRange" if "ibatch" in msg else "other:" + msg)
-            ok = False
-        except Exception as e:  # noqa
-            impl = f"err other:{type(e).__name__}"
-            ok = False
-        if len(impl) > 4000:
-            # large batches: compare a digest (first, last, length) on both sides through the oracle only
-            r = list(r)
-            if not (r == list(range(r[0], r[0] + len(r)))):
-                ctx.finding("get_batch/not_contiguous", "batch is not a contiguous increasing range", {"n": n, "k": k, "i": i})
-            partitions.setdefault((n, k), {})[i] = (int(r[0]), len(r))
-            ctx.count((n, k, i), True, "large")
+        ok, r, impl = check_batch(n, k, i, partitions)
+        if ok and len(r) > 600:
+            ctx.count((n, k, i), True, "large")   # compared through the oracle's closed form only
             continue
-        add(f"batch {n} {k} {i}", impl, {"n": n, "k": k, "i": i})
+        add(f"batch {n} {k} {i}", ("ok " + C.ilist(r)) if ok else impl, {"n": n, "k": k, "i": i})
         ctx.count((n, k, i), ok and len(r) > 0, "accepted" if ok else impl.split()[1],
-                  sample={"get_batch": [n, k, i], "reply": impl[:80]})
-        if ok:
-            r = [int(x) for x in r]
-            partitions.setdefault((n, k), {})[i] = (r[0] if r else None, len(r))
-            if r != list(range(r[0], r[0] + len(r))) if r else False:
-                ctx.finding("get_batch/not_contiguous", "batch is not a contiguous increasing range", {"n": n, "k": k, "i": i, "batch": r})
-            if not (1 <= k <= n and 0 <= i < k):
-                ctx.finding("get_batch/accepts_invalid", "a call outside 1<=nbatch<=nelements, 0<=ibatch<nbatch was accepted", {"n": n, "k": k, "i": i})
-        else:
-            if 1 <= k <= n and 0 <= i < k:
-                ctx.finding("get_batch/rejects_valid", "a valid call was rejected", {"n": n, "k": k, "i": i, "reply": impl})
+                  sample={"get_batch": [n, k, i], "reply": (("ok " + C.ilist(r)) if ok else impl)[:80]})
     # oracle on complete partitions
     for (n, k), d in partitions.items():
         if len(d) != k:
@@ -134,13 +290,122 @@ def body(ctx):
             if max(sizes) - min(sizes) > 1:
                 ctx.finding("get_batch/unbalanced", "batch sizes differ by more than one", {"n": n, "k": k, "sizes": sizes})
 
-    for _ in range(ctx.scale(400, 4000)):
+    # ---------------- numpy's array_split itself against the model's mirrored arithmetic
+    for n in range(0, ctx.scale(24, 40)):
+        for k in range(1, n + 3):
+            parts = np.array_split(np.arange(n), k)
+            sizes = [len(p) for p in parts]
+            points = [0] + [int(x) for x in np.cumsum(sizes)]
+            impl = ("[" + ";".join(",".join(str(int(x)) for x in p) for p in parts) + "]"
+                    + f" sizes={C.ilist(sizes)} points={C.ilist(points)} closed=true bsize=true bstart=true")
+            add(f"split {n} {k}", impl, {"n": n, "k": k}, exact=True)
+            ctx.count(("split", n, k), n > 0, "array_split")
+
+    # ---------------- call sequences: get_batch has no memory, SiteBatch objects do not interfere
+    def mk_ids(n, strings):
+        if strings:
+            return [f"{rng.choice('ABGQ')}{x}" for x in rng.sample(range(100, 999), n)]
+        return rng.sample(range(1000, 5000), n)
+
+    for _ in range(ctx.scale(120, 1200)):
+        pool = []
+        for _ in range(rng.randint(1, 3)):
+            n = rng.randint(1, 30)
+            k = rng.choice([rng.randint(1, n), rng.randint(1, n), rng.randint(1, n), n, n + rng.randint(1, 3), 0, -1])
+            ids = mk_ids(n, rng.random() < 0.3)
+            try:
+                sb0 = hyruns.SiteBatch(ids, k)
+            except Exception as e:  # noqa: the property does not say WHEN an invalid number of batches is rejected
+                sb0 = None
+                if 1 <= k <= n:
+                    ctx.finding("sitebatch/rejects_valid", "SiteBatch rejects 1 <= nbatch <= nsites and distinct ids",
+                                {"ids": ids, "k": k, "error": f"{type(e).__name__}: {e}"[:200]})
+            pool.append((ids, k, sb0))
+        last = None
+        for step in range(rng.randint(4, 12)):
+            r = rng.random()
+            if r < 0.35 and last is not None and last[0] == "batch":
+                # the same configuration again (often a rejected one), next or same index
+                _, n, k, i = last
+                i = rng.choice([i, i + 1, i, 0])
+                what = ("batch", n, k, i)
+            elif r < 0.55:
+                n = rng.randint(-1, 30)
+                k = rng.choice([rng.randint(1, max(n, 1)), n + rng.randint(1, 4), rng.randint(-1, 3)])
+                what = ("batch", n, k, rng.randint(-1, max(k, 0) + 1))
+            elif r < 0.75:
+                j = rng.randrange(len(pool))
+                what = ("item", j, rng.randint(-1, max(pool[j][1], 0) + 1))
+            else:
+                j = rng.randrange(len(pool))
+                ids = pool[j][0]
+                what = ("search", j, rng.choice(ids + ids + [-5 if isinstance(ids[0], int) else "nosite"]))
+            last = what
+            if what[0] == "batch":
+                _, n, k, i = what
+                ok, r_, impl = check_batch(n, k, i, how="sequence")
+                add(f"batch {n} {k} {i}", ("ok " + C.ilist(r_)) if ok else impl, {"n": n, "k": k, "i": i, "step": step})
+                ctx.count(("seq", n, k, i, step), ok, "sequence_batch")
+                continue
+            ids, k, sb = pool[what[1]]
+            n = len(ids)
+            valid_cfg = 1 <= k <= n
+            q, rem = divmod(n, k) if valid_cfg else (0, 0)
+            starts = [i * q + min(i, rem) for i in range(k + 1)] if valid_cfg else []
+            if what[0] == "item":
+                i = what[2]
+                try:
+                    if sb is None:
+                        raise ValueError("rejected by the constructor")
+                    got = sb[i]
+                    impl = "ok " + C.slist(got)
+                except ValueError:
+                    got, impl = None, "err"
+                except Exception as e:  # noqa
+                    got, impl = None, f"err other:{type(e).__name__}"
+                add(f"sbitem {C.slist(ids)} {k} {i}", impl, {"ids": ids, "k": k, "i": i, "step": step})
+                ctx.count(("sbitem", tuple(ids), k, i, step), got is not None, "sequence_item")
+                if valid_cfg and 0 <= i < k:
+                    if got is None or list(got) != ids[starts[i]:starts[i + 1]]:
+                        ctx.finding("sitebatch/item_not_slice", "sb[i] is not the i-th contiguous slice of the site list",
+                                    {"ids": ids, "k": k, "i": i, "got": got})
+                elif got is not None:
+                    ctx.finding("get_batch/accepts_invalid", "sb[i] is answered for a rejected configuration / index",
+                                {"ids": ids, "k": k, "i": i, "got": got, "how": "SiteBatch"})
+            else:
+                site = what[2]
+                try:
+                    if sb is None:
+                        raise ValueError("rejected by the constructor")
+                    got = sb.search(site)
+                    impl = "none" if got is None else f"some {got}"
+                    raised = False
+                except Exception as e:  # noqa
+                    got, impl, raised = None, "err " + type(e).__name__, True
+                add(f"sbsearch {C.slist(ids)} {k} {site}", impl, {"ids": ids, "k": k, "site": site, "step": step})
+                ctx.count(("sbsearch", tuple(ids), k, site, step), got is not None, "sequence_search")
+                if valid_cfg:
+                    if site in ids:
+                        s = ids.index(site)
+                        want = next(i for i in range(k) if starts[i] <= s < starts[i + 1])
+                        if raised:
+                            ctx.finding("search/raises_for_listed_site", "search raises for a site of the list", {"ids": ids, "k": k, "site": site})
+                        elif got != want:
+                            ctx.finding("search/wrong_batch", "search does not return the batch containing the site",
+                                        {"ids": ids, "k": k, "site": site, "got": got, "expected": want})
+                    elif got is not None:
+                        ctx.finding("search/phantom", "search finds a site that is not in the list", {"ids": ids, "k": k, "site": site})
+                elif k > n and not raised:
+                    ctx.finding("get_batch/accepts_invalid", "search answers for nbatch > nsites", {"ids": ids, "k": k, "got": got, "how": "SiteBatch.search"})
+
+    # ---------------- SiteBatch: one search per object (positions), repeated ids are rejected
+    for _ in range(ctx.scale(300, 3000)):
         n = rng.randint(1, 60)
         k = rng.randint(1, n)
-        ids = rng.sample(range(1000, 5000), n)
+        ids = mk_ids(n, rng.random() < 0.25)
         sb = hyruns.SiteBatch(ids, k)
         s = rng.randrange(n + 2)
-        site = ids[s] if s < n else -5
+        site = ids[s] if s < n else (-5 if isinstance(ids[0], int) else "nosite")
         try:
             got = sb.search(site)
         except Exception:  # noqa  (a site that is in no batch may as well be reported with an exception)
@@ -148,160 +413,539 @@ def body(ctx):
             if s < n:
                 ctx.finding("search/raises_for_listed_site", "search raises for a site of the list", {"n": n, "k": k, "pos": s})
         add(f"search {n} {k} {s}", "none" if got is None else f"some {got}", {"n": n, "k": k, "pos": s})
+        add(f"sbsearch {C.slist(ids)} {k} {site}", "none" if got is None else f"some {got}", {"ids": ids, "k": k, "site": site})
         ctx.count(("search", n, k, s), got is not None, "search")
         if s < n:
             if got is None or site not in sb[got]:
                 ctx.finding("search/wrong_batch", "search does not return the batch containing the site", {"n": n, "k": k, "pos": s, "got": got})
             else:
                 # batch i of a SiteBatch holds the sites at the positions get_batch(nsites, nbatch, i) of the list AS GIVEN
-                # (contiguous, ordered): sizes q+1 for the first r batches, q for the others, q, r = divmod(n, k)
                 q, r = divmod(n, k)
                 starts = [i * q + min(i, r) for i in range(k + 1)]
                 want = next(i for i in range(k) if starts[i] <= s < starts[i + 1])
-                members = [int(x) for x in sb[got]]
+                members = list(sb[got])
                 if got != want or members != [ids[j] for j in range(starts[got], starts[got + 1])]:
                     ctx.finding("search/not_batch_of_position", "the batch returned for a site is not the batch of its position in the list as given "
                                 "(batches are contiguous, ordered slices of the site list)",
                                 {"n": n, "k": k, "pos": s, "got": got, "expected": want, "ids": ids[:12], "batch": members[:12]})
         elif got is not None:
             ctx.finding("search/phantom", "search finds a site that is not in the list", {"n": n, "k": k})
+    for _ in range(ctx.scale(40, 400)):
+        n = rng.randint(2, 12)
+        ids = mk_ids(n, rng.random() < 0.3)
+        dup = rng.random() < 0.7
+        if dup:
+            ids[rng.randrange(n)] = ids[rng.randrange(n)]
+        dup = len(set(ids)) < n
+        try:
+            hyruns.SiteBatch(ids, 1)
+            impl = "ok " + C.slist(ids)
+        except Exception as e:  # noqa
+            impl = "err nonUnique" if dup else f"err other:{type(e).__name__}"
+        add(f"sbitem {C.slist(ids)} 1 0", impl, {"ids": ids}, exact=True)
+        ctx.count(("sbnew", tuple(ids)), not dup, "sitebatch_unique" if not dup else "sitebatch_repeated_ids")
 
-    # ---------------- option manager
+    # ---------------- option manager, one call each
+    def expected_tasks(args):
+        keys = list(args.keys())
+        return keys, [dict(zip(keys, t)) for t in itertools.product(*[arg_values(args[k]) for k in keys])]
+
+    def build(name, ctxd, args):
+        opm = hyruns.OptionManager(name, **ctxd)
+        opm.from_cartesian_product(**{k: realize(a) for k, a in args.items()})
+        return opm
+
+    def find_oracle_applies(args, crit):
+        for k, v in crit.items():
+            vals = arg_values(args[k])
+            if not (plain(v) and all(plain(x) for x in vals)) and not (args[k][0] == "bare" and tok(v) == tok(vals[0])):
+                return False
+        return True
+
+    def roundtrip_legs(opm, snap, case, tmp, legs):
+        """every reading of ONE exported dictionary gives back the manager: dictionary leg, json leg, the same dictionary
+        again, a json file; in the order `legs`"""
+        dd = None
+        try:
+            dd = opm.to_dict()
+        except Exception as e:  # noqa
+            ctx.finding("roundtrip/raises", "to_dict of a cartesian-product manager raises", {**case, "error": f"{type(e).__name__}: {e}"[:200]})
+            return None
+        res = []
+        for leg in legs:
+            try:
+                if leg == "dict":
+                    m2 = hyruns.OptionManager.from_dict(dd)
+                elif leg == "json":
+                    m2 = hyruns.OptionManager.from_dict(json.loads(json.dumps(dd)))
+                else:
+                    path = Path(tmp) / f"rt_{rng.randrange(10 ** 9)}.json"
+                    opm.save(path)
+                    m2 = hyruns.OptionManager.from_file(path, wait_secs=0)
+            except Exception as e:  # noqa: a round trip that cannot be made is a violation, not a harness failure
+                ctx.finding("roundtrip/raises" + case.get("sigtag", ""), "the dictionary/JSON round trip of a cartesian-product manager raises",
+                            {**case, "leg": leg, "legs": legs, "error": f"{type(e).__name__}: {e}"[:200]})
+                res.append(None)
+                continue
+            try:
+                e1, e2 = bool(opm == m2), bool(m2 == opm)
+            except Exception as e:  # noqa
+                ctx.finding("roundtrip/raises" + case.get("sigtag", ""), "comparing a manager with its round trip raises",
+                            {**case, "leg": leg, "legs": legs, "error": f"{type(e).__name__}: {e}"[:200]})
+                res.append(None)
+                continue
+            same = same_as(m2, snap)
+            res.append((e1, e2, same, m2.ntasks))
+            if not (e1 and e2 and same):
+                ctx.finding("roundtrip/not_equal" + case.get("sigtag", ""), "manager rebuilt from its dictionary differs from the original",
+                            {**case, "leg": leg, "legs": legs, "eq": [e1, e2], "same": same, "ntasks": m2.ntasks})
+        return res
+
+    # renamed keys of the quantifier: names that do not collide (the task-level names differ from each other and from
+    # "taskid", the top-level names from each other and from "name" / "tasks"); collisions are probed further down
     keysets = [("context", "options", "options"), ("ctx", "opt", "mopt"), ("context", "task_opts", "options"),
                ("cfg", "options", "opts2")]
+    ctxpool = [1, "a", "run_7", 33, 0, False, None, 0.0, "", 2.5, -4]
+    tmpdir = tempfile.TemporaryDirectory(prefix="c19_")
+    tmp = tmpdir.name
     for it in range(ctx.scale(300, 3000)):
-        opts = gen_opts(rng)
-        # context values include falsy ones (0, False, None, 0.0): a value that tests false is still a value
-        ctxd = {k: rng.choice([1, "a", "run_7", 33, 0, False, None, 0.0]) for k in rng.sample(["c1", "c2", "who"], rng.randint(0, 2))}
+        if enough():
+            break
+        args = gen_args(rng)
+        # context values include falsy ones (0, False, None, 0.0, ""): a value that tests false is still a value
+        ctxd = {k: rng.choice(ctxpool) for k in rng.sample(["c1", "c2", "who"], rng.randint(0, 2))}
         kn = rng.choice(keysets)
         hyruns.reset_dict_keyname()
         hyruns.set_dict_keyname("context_name", kn[0])
         hyruns.set_dict_keyname("task_options_name", kn[1])
         hyruns.set_dict_keyname("manager_options_name", kn[2])
+        shown = {k: list(a) for k, a in args.items()}
+        conts = sorted({a[0] for a in args.values()} - {"list", "bare"})
+        case0 = {"options": shown, "context": ctxd, "keynames": kn}
         try:
-            opm = hyruns.OptionManager("nm", **ctxd)
-            opm.from_cartesian_product(**opts)
-            keys = list(opts.keys())
-            vals = [as_list(opts[k]) for k in keys]
-            kt = C.slist(keys)
-            # a scalar given bare crosses as `!v` (the model wraps it as from_cartesian_product does)
-            vt = "[" + ";".join(("!" + str(opts[k])) if isinstance(opts[k], (str, int, float)) else ",".join(str(v) for v in as_list(opts[k]))
-                                for k in keys) + "]"
-            impl = "[" + ";".join(",".join(str(t[k]) for k in keys) for t in opm.tasks) + "]"
-            add(f"product {kt} {vt}", impl, {"options": opts})
-            ctx.count(("product", kt, vt), opm.ntasks > 1, "product", sample={"options": opts, "ntasks": opm.ntasks})
-            # oracle: every combination exactly once
-            want = list(itertools.product(*vals))
-            got = [tuple(t[k] for k in keys) for t in opm.tasks]
-            if sorted(map(repr, want)) != sorted(map(repr, got)):
-                ctx.finding("product/not_each_once", "tasks are not every combination exactly once", {"options": opts})
-            # find
+            opm = build("nm", ctxd, args)
+            keys, want = expected_tasks(args)
+            kt, vt = enc_args(args)
+            impl = f"n={opm.ntasks} [" + ";".join(",".join(tok(t[k]) for k in keys) for t in opm.tasks) + "] fc=true"
+            add(f"product {kt} {vt}", impl, case0)
+            ctx.count(("product", kt, vt), opm.ntasks > 1, "product" + ("+" + "+".join(conts) if conts else ""),
+                      sample={"options": shown, "ntasks": opm.ntasks})
+            # oracle: every combination exactly once (as typed values: 1 and "1" are different values)
+            if sorted(map(repr, map(typed, want))) != sorted(map(repr, map(typed, opm.tasks))):
+                ctx.finding("product/not_each_once", "tasks are not every combination exactly once", case0)
+            # the option lists the manager keeps are the values given
+            if typed({k: list(v) for k, v in opm.options.items()}) != typed({k: arg_values(a) for k, a in args.items()}):
+                ctx.finding("product/options_not_kept", "the manager does not keep the option values it was given", {**case0, "kept": repr(opm.options)[:200]})
+            # get_task / task[key]
+            for _ in range(2):
+                tid = rng.choice([rng.randrange(opm.ntasks), rng.randrange(opm.ntasks), -1, opm.ntasks, opm.ntasks + 2])
+                key = rng.choice(keys + list(ctxd.keys()) + ["nokey"])
+                ck, cv = enc_dict(ctxd)
+                try:
+                    t = opm.get_task(tid)
+                    try:
+                        got = tok(t[key])
+                    except AssertionError:
+                        got = "err"
+                    hyruns.reset_dict_keyname()
+                    same_td = t.to_dict() == opm.to_dict()["tasks"][tid]
+                    impl = f"task:{t.taskid}:{fmt_dict(t.context)}:{fmt_dict(t.options)} get={got} todict={str(same_td).lower()}"
+                    if typed(t.options) != typed(want[tid]) or t.taskid != tid:
+                        ctx.finding("get_task/not_the_combination", "get_task(i) is not the i-th combination", {**case0, "taskid": tid})
+                except AssertionError:
+                    impl = "err"
+                    if 0 <= tid < len(want):
+                        ctx.finding("get_task/rejects_valid", "get_task rejects a task number in range", {**case0, "taskid": tid})
+                finally:
+                    hyruns.set_dict_keyname("context_name", kn[0])
+                    hyruns.set_dict_keyname("task_options_name", kn[1])
+                    hyruns.set_dict_keyname("manager_options_name", kn[2])
+                add(f"gettask {ck} {cv} {kt} {vt} {tid} {key}", impl, {**case0, "taskid": tid, "key": key}, exact=True)
+                ctx.count(("gettask", kt, vt, tid, key), impl != "err", "get_task")
+            # find, one or more criteria
             for _ in range(3):
-                key = rng.choice(keys)
-                val = rng.choice(as_list(opts[key]) + [rng.choice([1, "a", 7, "zz", 10])])
-                found = opm.find(**{key: val})
-                add(f"find {kt} {vt} {key} {val}", "ok " + C.ilist(found), {"options": opts, "key": key, "val": val})
-                ctx.count(("find", kt, vt, key, val), len(found) > 0, "find")
-                expect = [i for i, t in enumerate(opm.tasks) if str(t[key]) == str(val)]
-                if found != expect:
-                    ctx.finding("find/not_equality_filter", "find does not return exactly the tasks whose option equals the value",
-                                {"options": opts, "key": key, "val": val, "found": found, "expected": expect})
+                ncrit = 1 if rng.random() < 0.7 else min(len(keys), rng.randint(0, 3))
+                crit = {}
+                for key in rng.sample(keys, ncrit):
+                    crit[key] = rng.choice(arg_values(args[key]) * 3 + [rng.choice([1, "a", 7, "zz", 10, "x"])])
+                how = rng.choice(["find", "find", "search"])
+                found = opm.find(**crit) if how == "find" else opm.search(**{k: f"^{v}$" for k, v in crit.items()})
+                ck, cv = enc_dict(crit)
+                pl = all(plain(v) for v in crit.values()) and all(plain(x) for a in args.values() for x in arg_values(a))
+                qu = all(quant(v) for v in crit.values()) and all(quant(x) for a in args.values() for x in arg_values(a))
+                add(f"find {kt} {vt} {ck} {cv}", f"ok {C.ilist(found)} plain={str(pl).lower()} quant={str(qu).lower()}", {**case0, "criteria": crit}, exact=True)
+                ctx.count(("find", kt, vt, ck, cv), len(found) > 0, "find" if ncrit == 1 else f"find_{ncrit}_criteria")
+                if find_oracle_applies(args, crit):
+                    expect = [i for i, t in enumerate(want) if all(str(t[k]) == str(v) for k, v in crit.items())]
+                    if found != expect:
+                        ctx.finding("find/not_equality_filter", "find does not return exactly the tasks whose option equals the value",
+                                    {**case0, "criteria": crit, "found": found, "expected": expect, "how": how})
             # a key that is not an option is rejected
-            bad = rng.choice(["nokey", "Alpha", "alph", "month_", ""] + [k + "x" for k in keys])
-            if bad not in keys and bad != "":
+            bad = rng.choice(["nokey", "Alpha", "alph", "month_"] + [k + "x" for k in keys])
+            if bad not in keys:
                 try:
                     r = "ok " + C.ilist(opm.find(**{bad: 1}))
                 except AssertionError:
                     r = "err unknownKey"
                 except Exception as e:
                     r = "err " + type(e).__name__
-                add(f"find {kt} {vt} {bad} 1", r, {"options": opts, "key": bad})
+                add(f"find {kt} {vt} [{bad}] [i1]", r, {**case0, "key": bad})
                 ctx.count(("findbad", kt, bad), True, "find_unknown_key")
-            # round trip through json
-            try:
-                dd = json.loads(json.dumps(opm.to_dict()))
-                opm2 = hyruns.OptionManager.from_dict(dd)
-            except Exception as e:  # noqa: a round trip that cannot be made is a violation, not a harness failure
-                ctx.finding("roundtrip/raises", "the dictionary/JSON round trip of a cartesian-product manager raises",
-                            {"options": opts, "context": ctxd, "keynames": kn, "error": f"{type(e).__name__}: {e}"[:200]})
-                continue
-            e1, e2 = bool(opm == opm2), bool(opm2 == opm)
-            same = (opm2.tasks == opm.tasks and opm2.options == {k: as_list(v) for k, v in opts.items()} and opm2.context == ctxd and opm2.name == "nm")
-            ck, cv = C.slist(ctxd.keys()), C.slist(ctxd.values())
-            impl = f"some {str(e1).lower()} {str(e2).lower()} {str(same).lower()} {opm2.ntasks}"
-            add(f"roundtrip {kn[0]} {kn[1]} {kn[2]} nm {ck} {cv} {kt} {vt}", impl, {"options": opts, "context": ctxd, "keynames": kn})
-            ctx.count(("rt", kn, ck, cv, kt, vt), True, "roundtrip")
-            if not (e1 and e2 and same):
-                ctx.finding("roundtrip/not_equal", "manager rebuilt from its dictionary differs from the original",
-                            {"options": opts, "context": ctxd, "keynames": kn, "eq": [e1, e2], "same": same})
+            # round trip: every reading of one exported dictionary
+            snap = snapshot(opm)
+            legs = rng.sample(["dict", "json", "dict", "json", "file"], rng.randint(2, 4))
+            sigtag = ":container" if conts else ""
+            res = roundtrip_legs(opm, snap, {**case0, "containers": conts, "sigtag": sigtag}, tmp, legs)
+            ck, cv = enc_dict(ctxd)
+            if res is not None and res and res[0] is not None:
+                e1, e2, same, nt = res[0]
+                impl = f"some {str(e1).lower()} {str(e2).lower()} {str(same).lower()} {nt} knok=true okeq=true"
+                add(f"roundtrip {kn[0]} {kn[1]} {kn[2]} nm {ck} {cv} {kt} {vt}", impl, case0, exact=True)
+            ctx.count(("rt", kn, ck, cv, kt, vt, tuple(legs)), True, "roundtrip")
         finally:
             hyruns.reset_dict_keyname()
 
-    # ---------------- histories on ONE manager object: the grid is regenerated (often with the same number of tasks)
-    # between find/search calls; every answer must be about the grid the manager holds now.  Also contexts whose values
-    # cannot cross the line protocol ("" and empty containers), checked against the oracle only.
-    for it in range(ctx.scale(150, 1500)):
+    # ---------------- histories on ONE manager object, the key names, ONE exported dictionary and files
+    okpool = {"context_name": ["context", "ctx", "cfg"], "task_options_name": ["options", "opt", "topts"],
+              "manager_options_name": ["options", "mopt", "opts2"]}
+    for it in range(ctx.scale(250, 2500)):
+        if enough():
+            break
         hyruns.reset_dict_keyname()
-        cvals = rng.choice([{}, {"c1": ""}, {"c1": []}, {"who": {}}, {"c1": 0, "c2": ""}, {"c1": "a", "c2": []}])
-        opm = hyruns.OptionManager("hist", **cvals)
+        ctxd = rng.choice([{}, {"c1": ""}, {"c1": []}, {"who": {}}, {"c1": 0, "c2": ""}, {"c1": "a", "c2": []}, {"c1": 7, "who": None},
+                           {"c2": False}])
+        opm = hyruns.OptionManager("hist", **ctxd)
+        kn = {"context_name": "context", "task_options_name": "options", "manager_options_name": "options"}
+        cur_args, cur_ok = None, True       # last grid given, and whether it was accepted
+        want = []                           # the combinations the manager must hold now ([] before the first grid)
+        reg, reg_snap, reg_kn = None, None, None
+        files = {}                          # path -> (snapshot, key names) of the last save the oracle knows took effect
+        held = {}                           # list objects handed to the manager earlier (handed again later)
         shape = None
-        for step in range(rng.randint(2, 4)):
-            opts = gen_opts(rng)
-            if shape is not None and rng.random() < 0.7:
-                # same keys and value counts as the previous grid, different values / order
-                opts = {}
-                for k, n in shape:
-                    pool = rng.choice([list(range(1, 13)), ["a", "ab", "b_1", "zz9", "model", "mod", "d", "D", "x1", "q"]])
-                    opts[k] = rng.sample(pool, n)
-            shape = [(k, len(as_list(v))) for k, v in opts.items()]
-            opm.from_cartesian_product(**opts)
-            keys = list(opts.keys())
-            vals = [as_list(opts[k]) for k in keys]
-            want = list(itertools.product(*vals))
-            got = [tuple(t[k] for k in keys) for t in opm.tasks]
-            ctx.count(("hist", step, repr(opts)), step > 0, "history_regenerated" if step else "history_first")
-            if list(map(repr, want)) != list(map(repr, got)):
-                ctx.finding("product/not_each_once", "tasks of a regenerated grid are not every combination exactly once",
-                            {"options": opts, "step": step})
-            for _ in range(2):
-                key = rng.choice(keys)
-                val = rng.choice(as_list(opts[key]))
-                how = rng.choice(["find", "search"])
+        ops, outs, loose = [], [], []
+        trace = []
+        for step in range(rng.randint(4, 14)):
+            if opm.ntasks > 5000 or enough():
+                break       # no grid of the quantifier has more than 5**4 tasks: the object grows without bound, stop driving it
+            if not cur_ok:
+                # after a rejected grid (an option that is neither a scalar nor iterable - outside the quantifier) the property says
+                # nothing about the state the manager is left in: the model states the one of this code (options partly rebuilt,
+                # old tasks); answers are compared, but a difference is only counted
+                loose.append(len(ops))
+            r = rng.random()
+            fresh_case = {"context": ctxd, "trace": trace[-8:], "step": step}
+            if r < 0.22 or (step == 0 and r < 0.7):
+                # regenerate the grid: often the same keys and numbers of values as the grid before, other values / order;
+                # sometimes the very same list objects again; rarely an argument that is not iterable
+                args = gen_args(rng)
+                if shape is not None and rng.random() < 0.6:
+                    args = {k: (("list", gen_values(rng, n)) if n > 0 else a) for (k, n, a) in shape}
+                bad = rng.random() < 0.08
+                if bad:
+                    keys_ = list(args.keys())
+                    args[rng.choice(keys_)] = ("none", [])
+                    if rng.random() < 0.5:
+                        args = dict(sorted(args.items(), key=lambda kv: rng.random()))
+                kw = {}
+                for k, a in args.items():
+                    if a[0] == "list" and k in held and rng.random() < 0.3:
+                        args[k] = ("list", list(held[k][1]))
+                        kw[k] = held[k][0]          # the same list object as in an earlier call
+                    else:
+                        kw[k] = realize(a)
+                        if a[0] == "list":
+                            held[k] = (kw[k], list(a[1]))
+                kt, vt = enc_args(args)
+                ops.append(f"C:{kt}:{vt}")
                 try:
-                    found = opm.find(**{key: val}) if how == "find" else opm.search(**{key: f"^{val}$"})
-                except Exception as e:
-                    found = f"raised {type(e).__name__}"
-                expect = [i for i, w in enumerate(want) if str(w[keys.index(key)]) == str(val)]
-                if found != expect:
-                    ctx.finding("find/not_equality_filter", "find on a regenerated grid does not return exactly the tasks whose option equals the value",
-                                {"options": opts, "key": key, "val": val, "found": found, "expected": expect, "step": step, "how": how})
+                    opm.from_cartesian_product(**kw)
+                    outs.append("ok")
+                    accepted = True
+                except TypeError:
+                    outs.append("err")
+                    accepted = False
+                trace.append(f"from_cartesian_product({ {k: list(a) for k, a in args.items()} })")
+                if accepted:
+                    cur_args, cur_ok = args, True
+                    shape = [(k, len(a[1]) if a[0] != "bare" else 0, a) for k, a in args.items()]
+                    keys, want = expected_tasks(args)
+                    if typed(opm.tasks) != typed(want):
+                        ctx.finding("product/not_each_once", "tasks of a regenerated grid are not every combination exactly once",
+                                    {**fresh_case, "options": {k: list(a) for k, a in args.items()}})
+                    if bad:
+                        ctx.finding("product/accepts_non_iterable", "an option that is neither a scalar nor iterable was accepted", fresh_case)
+                else:
+                    cur_ok = False
+                    if not bad:
+                        ctx.finding("product/rejects_valid", "a valid option dictionary was rejected", {**fresh_case, "options": {k: list(a) for k, a in args.items()}})
+                ctx.count(("hist", it, step, "C"), accepted, "history_grid" + ("" if accepted else "_rejected"))
+            elif r < 0.42:
+                if cur_args is None or not cur_ok:
+                    crit = {rng.choice(["alpha", "month", "nokey"]): 1}
+                else:
+                    keys = list(cur_args.keys())
+                    crit = {}
+                    for key in rng.sample(keys, 1 if rng.random() < 0.75 else min(len(keys), 2)):
+                        crit[key] = rng.choice(arg_values(cur_args[key]) * 3 + [1, "a", 10])
+                    if rng.random() < 0.08:
+                        crit["nokey"] = 1
+                how = rng.choice(["find", "search"])
+                ck, cv = enc_dict(crit)
+                ops.append(f"F:{ck}:{cv}")
+                if cur_args is None or not cur_ok:
+                    # before the first grid and after a rejected one the property says nothing about `find` (no task to look at,
+                    # or options and tasks that belong to different grids): the answer is compared but a difference is only counted
+                    loose.append(len(ops) - 1)
+                try:
+                    found = opm.find(**crit) if how == "find" else opm.search(**{k: f"^{v}$" for k, v in crit.items()})
+                    outs.append("ids" + C.ilist(found))
+                except (AssertionError, KeyError):
+                    found = None
+                    outs.append("err")
+                trace.append(f"{how}({crit})")
+                ctx.count(("hist", it, step, "F"), bool(found), "history_find")
+                if cur_ok and cur_args is not None and all(k in cur_args for k in crit) and find_oracle_applies(cur_args, crit):
+                    expect = [i for i, t in enumerate(want) if all(str(t[k]) == str(v) for k, v in crit.items())]
+                    if found != expect:
+                        ctx.finding("find/not_equality_filter", "find on a regenerated grid does not return exactly the tasks whose option equals the value",
+                                    {**fresh_case, "criteria": crit, "found": found, "expected": expect, "how": how})
+            elif r < 0.50:
+                n = len(want)
+                tid = rng.choice([rng.randrange(n) if n else 0, rng.randrange(n) if n else 0, -1, n, n + 3])
+                ops.append(f"T:{tid}")
+                try:
+                    t = opm.get_task(tid)
+                    outs.append(f"task:{t.taskid}:{fmt_dict(t.context)}:{fmt_dict(t.options)}")
+                    if cur_ok and (not 0 <= tid < n or typed(t.options) != typed(want[tid])):
+                        ctx.finding("get_task/not_the_combination", "get_task(i) on a regenerated grid is not the i-th combination", {**fresh_case, "taskid": tid})
+                except AssertionError:
+                    outs.append("err")
+                    if cur_ok and 0 <= tid < n:
+                        ctx.finding("get_task/rejects_valid", "get_task rejects a task number in range", {**fresh_case, "taskid": tid})
+                trace.append(f"get_task({tid})")
+                ctx.count(("hist", it, step, "T"), outs[-1] != "err", "history_get_task")
+            elif r < 0.62:
+                ops.append("E")
+                reg = opm.to_dict()
+                reg_snap, reg_kn = snapshot(opm), dict(kn)
+                outs.append("ok")
+                trace.append("dd = to_dict()")
+                ctx.count(("hist", it, step, "E"), True, "history_export")
+            elif r < 0.68:
+                ops.append("J")
+                reg = json.loads(json.dumps(reg))
+                outs.append("ok")
+                trace.append("dd = json.loads(json.dumps(dd))")
+                ctx.count(("hist", it, step, "J"), reg is not None, "history_json")
+            elif r < 0.84:
+                ops.append("I")
+                trace.append("from_dict(dd)")
+                try:
+                    m2 = hyruns.OptionManager.from_dict(reg)
+                    if not well_kinded(m2):
+                        raise KeyError("a field of the wrong kind")
+                    e1, e2 = bool(opm == m2), bool(m2 == opm)
+                    same = same_as(m2, snapshot(opm))
+                    # `==` between managers that differ is not constrained by the property (the code's `==` is one-directional)
+                    outs.append(f"mgr:{str(e1).lower()}:{str(e2).lower()}:true:{m2.ntasks}" if same else f"mgr:differs:{m2.ntasks}")
+                except Exception as e:  # noqa
+                    m2 = None
+                    outs.append("err")
+                ctx.count(("hist", it, step, "I"), m2 is not None, "history_import")
+                # oracle: a dictionary exported under the key names in force now gives back the manager it was exported from,
+                # however often it has been read before
+                if reg is not None and reg_kn == kn and kn["context_name"] not in (kn["manager_options_name"], "name", "tasks") \
+                        and kn["manager_options_name"] not in ("name", "tasks"):
+                    if m2 is None:
+                        ctx.finding("roundtrip/raises", "an exported dictionary cannot be read back", {**fresh_case, "keynames": kn})
+                    elif not same_as(m2, reg_snap):
+                        ctx.finding("roundtrip/not_equal", "an exported dictionary does not give back the manager it was exported from "
+                                    "(the dictionary had been read or converted before)" if trace.count("from_dict(dd)") > 1 else
+                                    "an exported dictionary does not give back the manager it was exported from",
+                                    {**fresh_case, "keynames": kn, "ntasks": m2.ntasks})
+                    elif reg_snap == snapshot(opm) and not (opm == m2 and m2 == opm):
+                        ctx.finding("roundtrip/not_equal", "a manager read back from its dictionary is not == to the original in both directions",
+                                    {**fresh_case, "keynames": kn})
+            elif r < 0.90:
+                key = rng.choice(list(okpool) + (["bad_name"] if rng.random() < 0.15 else []))
+                name = rng.choice(okpool.get(key, ["zz"]))
+                ops.append(f"K:{key}:{name}")
+                try:
+                    hyruns.set_dict_keyname(key, name)
+                    kn[key] = name
+                    outs.append("ok")
+                except AssertionError:
+                    outs.append("err")
+                trace.append(f"set_dict_keyname({key!r}, {name!r})")
+                ctx.count(("hist", it, step, "K"), key in okpool, "history_set_keyname")
+            elif r < 0.92:
+                ops.append("R")
+                hyruns.reset_dict_keyname()
+                kn = {"context_name": "context", "task_options_name": "options", "manager_options_name": "options"}
+                outs.append("ok")
+                trace.append("reset_dict_keyname()")
+                ctx.count(("hist", it, step, "R"), True, "history_reset_keynames")
+            elif r < 0.96:
+                path = rng.choice(["f1", "f2"])
+                ow = rng.random() < 0.5
+                ops.append(f"S:{path}:{int(ow)}")
+                fp = Path(tmp) / f"h{it}_{path}.json"
+                existed = fp.exists()
+                opm.save(fp, overwrite=ow)
+                outs.append("ok")
+                if ow or not existed:
+                    files[path] = (snapshot(opm), dict(kn))
+                trace.append(f"save({path}, overwrite={ow})")
+                ctx.count(("hist", it, step, "S"), ow or not existed, "history_save")
+            else:
+                path = rng.choice(["f1", "f2"])
+                ops.append(f"L:{path}")
+                fp = Path(tmp) / f"h{it}_{path}.json"
+                trace.append(f"from_file({path})")
+                try:
+                    m2 = hyruns.OptionManager.from_file(fp, wait_secs=0)
+                    if not well_kinded(m2):
+                        raise KeyError("a field of the wrong kind")
+                    e1, e2 = bool(opm == m2), bool(m2 == opm)
+                    same = same_as(m2, snapshot(opm))
+                    # `==` between managers that differ is not constrained by the property (the code's `==` is one-directional)
+                    outs.append(f"mgr:{str(e1).lower()}:{str(e2).lower()}:true:{m2.ntasks}" if same else f"mgr:differs:{m2.ntasks}")
+                except Exception:  # noqa
+                    m2 = None
+                    outs.append("err")
+                ctx.count(("hist", it, step, "L"), m2 is not None, "history_load")
+                if path in files and files[path][1] == kn and kn["context_name"] not in (kn["manager_options_name"], "name", "tasks") \
+                        and kn["manager_options_name"] not in ("name", "tasks"):
+                    if m2 is None:
+                        ctx.finding("roundtrip/raises", "a saved manager cannot be read back", {**fresh_case, "keynames": kn, "path": path})
+                    elif not same_as(m2, files[path][0]):
+                        ctx.finding("roundtrip/not_equal", "a saved manager does not come back equal from its file", {**fresh_case, "keynames": kn, "path": path})
+        hyruns.reset_dict_keyname()
+        ck, cv = enc_dict(ctxd)
+        add("hist hist " + ck + " " + cv + " " + " ".join(ops), " ".join(outs), {"context": ctxd, "ops": ops, "loose": loose}, exact=True)
+
+    # ---------------- beyond the quantifier: correspondence only (the model mirrors the code there too), no oracle
+    for it in range(ctx.scale(120, 1200)):
+        if enough():
+            break
+        hyruns.reset_dict_keyname()
+        kind = rng.choice(["repeat", "dots", "collide", "noniter", "empty"])
+        args = gen_args(rng, containers=False)
+        keys = list(args.keys())
+        ctxd = {"c1": rng.choice([1, "a", 33])}
+        kn = ("context", "options", "options")
+        if kind == "repeat":
+            k = rng.choice(keys)
+            vals = arg_values(args[k])
+            args[k] = ("list", vals + [rng.choice(vals)])
+        elif kind == "dots":
+            k = rng.choice(keys)
+            args[k] = ("list", rng.sample(["v1.0", "v1x0", "a[1]", "a1", "[a]1", 0.5, "0x5", "0.5", 1.5, 105, "a.b", "a_b"], rng.randint(1, 5)))
+        elif kind == "collide":
+            kn = rng.choice([("x", "options", "x"), ("tasks", "options", "mo"), ("context", "options", "tasks"), ("name", "o", "mo"),
+                             ("context", "o", "name"), ("c", "c", "c"), ("c", "c", "o"), ("context", "taskid", "options"),
+                             ("taskid", "options", "mo")])
+        elif kind == "noniter":
+            args[rng.choice(keys)] = ("none", [])
+        else:
+            args[rng.choice(keys)] = ("list", [])
+        kt, vt = enc_args(args)
+        case0 = {"options": {k: list(a) for k, a in args.items()}, "context": ctxd, "keynames": kn, "kind": kind}
+        opm = hyruns.OptionManager("nm", **ctxd)
+        try:
+            opm.from_cartesian_product(**{k: realize(a) for k, a in args.items()})
+            impl = f"n={opm.ntasks} [" + ";".join(",".join(tok(t[k]) for k in keys) for t in opm.tasks) + "] fc=true"
+        except TypeError:
+            impl = "err typeError " + C.slist(opm.options.keys())
+        except Exception as e:  # noqa: beyond the quantifier another tree may refuse what this one accepts (reported as a disagreement)
+            impl = f"err other:{type(e).__name__}"
+        add(f"product {kt} {vt}", impl, case0, exact=True)
+        ctx.count(("beyond", kind, kt, vt), True, "beyond_" + kind)
+        if kind == "noniter" or impl.startswith("err other"):
+            continue
+        for _ in range(2):
+            key = rng.choice(keys)
+            pool = arg_values(args[key]) or [1]
+            crit = {key: rng.choice(pool)}
+            ck, cv = enc_dict(crit)
+            pl = all(plain(v) for v in crit.values()) and all(plain(x) for a in args.values() for x in arg_values(a))
+            qu = all(quant(v) for v in crit.values()) and all(quant(x) for a in args.values() for x in arg_values(a))
             try:
-                dd = json.loads(json.dumps(opm.to_dict()))
-                opm2 = hyruns.OptionManager.from_dict(dd)
-            except Exception as e:  # noqa
-                ctx.finding("roundtrip/raises", "the dictionary/JSON round trip of a cartesian-product manager raises",
-                            {"options": opts, "context": cvals, "step": step, "error": f"{type(e).__name__}: {e}"[:200]})
-                continue
-            e1, e2 = bool(opm == opm2), bool(opm2 == opm)
-            same = opm2.tasks == opm.tasks and opm2.context == cvals and opm2.options == {k: as_list(v) for k, v in opts.items()}
-            if not (e1 and e2 and same):
-                ctx.finding("roundtrip/not_equal", "manager rebuilt from its dictionary differs from the original",
-                            {"options": opts, "context": cvals, "eq": [e1, e2], "same": same, "step": step})
+                r = f"ok {C.ilist(opm.find(**crit))} plain={str(pl).lower()} quant={str(qu).lower()}"
+            except AssertionError:
+                r = "err unknownKey"
+            add(f"find {kt} {vt} {ck} {cv}", r, {**case0, "criteria": crit}, exact=True)
+        if kind == "empty":
+            # no task, no assertion: an unknown key goes unnoticed
+            pl = all(plain(x) for a in args.values() for x in arg_values(a))
+            qu = all(quant(x) for a in args.values() for x in arg_values(a))
+            try:
+                r = f"ok {C.ilist(opm.find(nokey=1))} plain={str(pl).lower()} quant={str(qu).lower()}"
+            except AssertionError:
+                r = "err unknownKey"
+            add(f"find {kt} {vt} [nokey] [i1]", r, {**case0, "criteria": {"nokey": 1}}, exact=True)
+        hyruns.set_dict_keyname("context_name", kn[0])
+        hyruns.set_dict_keyname("task_options_name", kn[1])
+        hyruns.set_dict_keyname("manager_options_name", kn[2])
+        try:
+            m2 = hyruns.OptionManager.from_dict(json.loads(json.dumps(opm.to_dict())))
+            if not well_kinded(m2):
+                raise KeyError("a field of the wrong kind")
+            e1, e2 = bool(opm == m2), bool(m2 == opm)
+            same = same_as(m2, snapshot(opm))
+            impl = f"some {str(e1).lower()} {str(e2).lower()} {str(same).lower()} {m2.ntasks}"
+        except Exception:  # noqa
+            impl = "none"
+        finally:
+            hyruns.reset_dict_keyname()
+        okeq = kn[0] != kn[2] and "tasks" not in (kn[0], kn[2])
+        knok = okeq and "name" not in (kn[0], kn[2])
+        ck, cv = enc_dict(ctxd)
+        add(f"roundtrip {kn[0]} {kn[1]} {kn[2]} nm {ck} {cv} {kt} {vt}", impl + f" knok={str(knok).lower()} okeq={str(okeq).lower()}", case0, exact=True)
+    tmpdir.cleanup()
 
     # ---------------- correspondence
     replies = lean.ask(reqs)
     kind_differs = 0
-    for req, impl, rep, case in zip(reqs, impls, replies, cases):
-        if impl.startswith("err") and rep.startswith("err"):
+    for req, impl, rep, case, exact in zip(reqs, impls, replies, cases, strict):
+        if not exact and impl.startswith("err") and rep.startswith("err"):
             # the property fixes WHICH calls are rejected, not the wording / exception class / which guard speaks first
             kind_differs += impl.split(":")[0] != rep
             continue
+        if req.startswith("sbsearch ") and rep == "none" and impl.startswith("err") \
+                and (int(req.split()[2]) < 1 or case.get("site") not in case.get("ids", [])):
+            # nbatch < 1 and a site that is not in the list are outside the quantifier: "nothing found" and "rejected" are both in order
+            continue
+        if case.get("kind") == "collide" and tuple(case.get("keynames", ())) in TASK_LEVEL_COLLISIONS and impl != rep:
+            # key names that collide inside a task dictionary are outside the quantifier and no theorem excludes them: the
+            # model follows the dictionary literal of the code (last entry wins); another tree may order it otherwise
+            ctx.extra["task_level_key_collisions_answered_differently"] = ctx.extra.get("task_level_key_collisions_answered_differently", 0) + 1
+            continue
+        if case.get("kind") == "noniter" and impl != rep and impl.split()[:2] == rep.split()[:2] == ["err", "typeError"]:
+            ctx.extra["states_after_a_rejected_grid_that_differ_from_the_model"] = ctx.extra.get("states_after_a_rejected_grid_that_differ_from_the_model", 0) + 1
+            continue
+        if case.get("kind") == "empty" and req.startswith("find ") and rep.startswith("ok []") and impl.startswith("err"):
+            continue    # an unknown key on a manager without tasks: "nothing found" and "rejected" are both in order
+        if case.get("kind") == "empty" and impl.startswith("err other"):
+            continue    # an option without values is outside the quantifier (1 to 5 values): "no task" and "rejected" are both in order
+        if req.startswith("hist "):
+            # reply of the model: one token per operation, then a summary token (n=..., consistency of `run` with the fold)
+            rt = rep.split()
+            rep = " ".join(rt[:-1]) if rt and rt[-1].startswith("n=") else rep
+            if rt and rt[-1].startswith("n=") and not rt[-1].startswith(f"n={len(impl.split())},"):
+                rep += " " + rt[-1]
+            if impl != rep and case.get("loose"):
+                a, b = impl.split(), rep.split()
+                if len(a) == len(b) and all(x == y or i in case["loose"] for i, (x, y) in enumerate(zip(a, b))):
+                    ctx.extra["unconstrained_answers_that_differ_from_the_model"] = \
+                        ctx.extra.get("unconstrained_answers_that_differ_from_the_model", 0) + 1
+                    continue
         ctx.compare("C19", {"request": req, **case}, impl, rep)
     ctx.extra["rejections_with_another_error_kind_than_the_model"] = kind_differs
     ctx.extra["rule"] = __doc__.split("Cases:")[1].strip()
-    ctx.assumptions += ["numpy.array_split, itertools.product, re, json are exercised but not modelled beyond their results",
-                        "option values are integers or identifier-like strings (find compares string forms)"]
+    ctx.assumptions += ["itertools.product, re, json are exercised but not modelled beyond their results; numpy.array_split's arithmetic is mirrored in the model",
+                        "option values are integers or identifier-like strings (find compares string forms; a `.` in a requested value matches any character)"]
 
 
 def main(tier, replay=None):
-    return C.run_check(PID, tier, body, replay=replay, trusted=["numpy.array_split / itertools.product / re / json (external, compared by result)"])
+    return C.run_check(PID, tier, body, replay=replay, trusted=["itertools.product / re / json (external, compared by result); numpy.array_split (arithmetic mirrored in the model, compared row by row)"])
